@@ -203,6 +203,43 @@ func runC07(r *Run, p *Prog) {
 }
 
 // kindsOfCase resolves the constants listed in a case clause to their names.
+// kindPredicate: fd is `func(t *idl.Type) bool { switch t.Kind { case K1, K2: return true }; return false }`; returns
+// the kinds for which it answers true.
+func kindPredicate(info *types.Info, fd *ast.FuncDecl) ([]string, bool) {
+	if fd == nil || fd.Body == nil || fd.Type.Params == nil || len(fd.Type.Params.List) != 1 || len(fd.Body.List) != 2 {
+		return nil, false
+	}
+	sw, ok := fd.Body.List[0].(*ast.SwitchStmt)
+	if !ok {
+		return nil, false
+	}
+	se, ok := sw.Tag.(*ast.SelectorExpr)
+	if !ok || se.Sel.Name != "Kind" {
+		return nil, false
+	}
+	isRet := func(st ast.Stmt, want string) bool {
+		r, ok := st.(*ast.ReturnStmt)
+		if !ok || len(r.Results) != 1 {
+			return false
+		}
+		id, ok := r.Results[0].(*ast.Ident)
+		return ok && id.Name == want
+	}
+	if !isRet(fd.Body.List[1], "false") {
+		return nil, false
+	}
+	var kinds []string
+	for _, c := range sw.Body.List {
+		cc := c.(*ast.CaseClause)
+		if cc.List == nil || len(cc.Body) != 1 || !isRet(cc.Body[0], "true") {
+			return nil, false
+		}
+		kinds = append(kinds, kindsOfCase(info, cc)...)
+	}
+	sort.Strings(kinds)
+	return kinds, len(kinds) > 0
+}
+
 func kindsOfCase(info *types.Info, cc *ast.CaseClause) []string {
 	var out []string
 	for _, e := range cc.List {
@@ -311,29 +348,54 @@ func conversionRules(r *Run, p *Prog, w *genWalker) {
 			continue
 		}
 		ast.Inspect(fd.Body, func(x ast.Node) bool {
-			s2, ok := x.(*ast.SwitchStmt)
-			if !ok {
-				return true
-			}
-			se, ok := s2.Tag.(*ast.SelectorExpr)
-			if !ok || se.Sel.Name != "Kind" {
-				return true
-			}
 			var conv []string
-			var convClause *ast.CaseClause
-			for _, c := range s2.Body.List {
-				cc := c.(*ast.CaseClause)
-				if cc.List == nil {
-					continue
+			var convBody []ast.Stmt
+			var s2 ast.Node
+			switch y := x.(type) {
+			case *ast.SwitchStmt:
+				se, ok := y.Tag.(*ast.SelectorExpr)
+				if !ok || se.Sel.Name != "Kind" {
+					return true
 				}
-				for _, st := range cc.Body {
-					if containsCallTo(st, tw.Name.Name) != nil {
-						conv = append(conv, kindsOfCase(info, cc)...)
-						convClause = cc
+				for _, c := range y.Body.List {
+					cc := c.(*ast.CaseClause)
+					if cc.List == nil {
+						continue
+					}
+					for _, st := range cc.Body {
+						if containsCallTo(st, tw.Name.Name) != nil {
+							conv = append(conv, kindsOfCase(info, cc)...)
+							convBody = cc.Body
+						}
 					}
 				}
+				s2 = y
+			case *ast.IfStmt:
+				// if <kind predicate>(x.Type) { ...conversion... } else { plain assignment }: the predicate is a function
+				// of the generator whose body is `switch t.Kind { case K...: return true }; return false`
+				call, ok := y.Cond.(*ast.CallExpr)
+				if !ok || len(call.Args) != 1 {
+					return true
+				}
+				id, ok := call.Fun.(*ast.Ident)
+				if !ok {
+					return true
+				}
+				kinds, ok := kindPredicate(info, w.funcs[id.Name])
+				if !ok {
+					return true
+				}
+				for _, st := range y.Body.List {
+					if containsCallTo(st, tw.Name.Name) != nil {
+						conv = kinds
+						convBody = y.Body.List
+					}
+				}
+				s2 = y
+			default:
+				return true
 			}
-			if convClause == nil {
+			if convBody == nil {
 				return true
 			}
 			n++
@@ -344,15 +406,15 @@ func conversionRules(r *Run, p *Prog, w *genWalker) {
 				fmt.Sprintf("this site converts for kinds %v, but the Go type differs between the tagged and the untagged variant for kinds %v: for the missing kinds a plain assignment between distinct anonymous types is emitted and the file does not compile", conv, depL))
 			// G2b parenthesised: text before the type ends with "(" and text after begins with ")("
 			var before, after string
-			for i, st := range convClause.Body {
+			for i, st := range convBody {
 				if containsCallTo(st, tw.Name.Name) == nil {
 					continue
 				}
 				if i > 0 {
-					before = lastConstOf(info, convClause.Body[i-1])
+					before = lastConstOf(info, convBody[i-1])
 				}
-				if i+1 < len(convClause.Body) {
-					after = firstConstOf(info, convClause.Body[i+1])
+				if i+1 < len(convBody) {
+					after = firstConstOf(info, convBody[i+1])
 				}
 			}
 			r.Ob("G2", name, fmt.Sprintf("conversion at %s is emitted parenthesised `(T)(x)`", p.Pos(s2.Pos())[strings.LastIndex(p.Pos(s2.Pos()), "/")+1:]), s2.Pos(), strings.HasSuffix(before, "(") && strings.HasPrefix(after, ")("),
